@@ -1,0 +1,65 @@
+//go:build verif
+
+// Copyright Istio Authors
+//
+// Licensed under the Apache License, Version 2.0 (the "License");
+// you may not use this file except in compliance with the License.
+// You may obtain a copy of the License at
+//
+//     http://www.apache.org/licenses/LICENSE-2.0
+//
+// Unless required by applicable law or agreed to in writing, software
+// distributed under the License is distributed on an "AS IS" BASIS,
+// WITHOUT WARRANTIES OR CONDITIONS OF ANY KIND, either express or implied.
+// See the License for the specific language governing permissions and
+// limitations under the License.
+
+package core
+
+import (
+	"istio.io/istio/pilot/pkg/features"
+	"istio.io/istio/pilot/pkg/model"
+	"istio.io/istio/pkg/config/host"
+	"istio.io/istio/pkg/util/sets"
+	"istio.io/istio/pkg/verif"
+)
+
+// ---------------------------------------------------------------------------------------------
+// C03: delta CDS - clusters of a service that ceased to exist are removed
+// ---------------------------------------------------------------------------------------------
+
+// Looking a service up for a proxy, and asking whether it has a (non-UDP) port, read the push context and
+// the service only.
+//
+//verif:pure (*istio.io/istio/pilot/pkg/model.PushContext).ServiceForHostname (*istio.io/istio/pilot/pkg/model.PushContext).ServiceAttachedToGateway
+//verif:pure (istio.io/istio/pilot/pkg/model.PortList).GetByPort
+
+// listed: name is one of the strings of l.
+func listed(l []string, name string) bool {
+	return verif.Exists(func(i int) bool { return 0 <= i && i < len(l) && l[i] == name })
+}
+
+// from the statement: "Resources that cease to exist are explicitly removed for the delta client". When the
+// service named by a changed ServiceEntry key is no longer known to the proxy, every cluster the proxy
+// watches for that service - with and without subset - is reported as deleted; when it still exists, every
+// watched cluster of a port the service no longer has is reported, and the service is rebuilt.
+//
+//verif:contract (*ConfigGeneratorImpl).deltaFromServices
+//verif:prop C03
+//verif:nosafety
+func ctDeltaFromServices(configgen *ConfigGeneratorImpl, key model.ConfigKey, proxy *model.Proxy, push *model.PushContext,
+	serviceClusters map[string]sets.String, servicePortClusters map[string]map[int]string, subsetClusters map[string]sets.String,
+) {
+	service := push.ServiceForHostname(proxy, host.Name(key.Name))
+	svcs, deleted := configgen.deltaFromServices(key, proxy, push, serviceClusters, servicePortClusters, subsetClusters)
+	verif.Ensures("clusters-of-a-service-that-is-gone-are-deleted", service != nil || verif.Forall(func(c string) bool {
+		return !(serviceClusters[key.Name].Contains(c) || subsetClusters[key.Name].Contains(c)) || listed(deleted, c)
+	}))
+	verif.Ensures("nothing-rebuilt-for-a-service-that-is-gone", service != nil || len(svcs) == 0)
+	verif.Ensures("only-watched-clusters-of-that-service-are-deleted", service != nil || verif.Forall(func(i int) bool {
+		return !(0 <= i && i < len(deleted)) || serviceClusters[key.Name].Contains(deleted[i]) || subsetClusters[key.Name].Contains(deleted[i])
+	}))
+	verif.Ensures("a-service-that-still-exists-is-rebuilt", service == nil ||
+		(features.FilterGatewayClusterConfig && proxy.Type == model.Router && !push.ServiceAttachedToGateway(key.Name, key.Namespace, proxy)) ||
+		(len(svcs) == 1 && svcs[0] == service))
+}
